@@ -30,7 +30,7 @@ pub fn run(ctx: &Ctx) {
         p_correct: 1.0,
         forks_everywhere: false,
         n_forks: 4,
-        histories: ctx.scale(80, 240),
+        histories: ctx.scale(80, 160),
         positional: true,
     };
     ctx.extra("config", vcore::json!(format!("{cfg:?}")));
